@@ -134,7 +134,7 @@ static void vc_fz_atexit(void){ vc_dump_results(vc_fz_execs); }
 static int vc_main(int argc,char **argv,const char *prop,const vc_mode_t *modes){
   if(argc<6){ fprintf(stderr,"usage: %s <mode> <seed> <shard> <nshards> <total-runs> [k=v...]\n",argv[0]); return 3; }
   vc_prop=prop; vc_mode=argv[1]; vc_seed=strtoull(argv[2],0,10); long shard=atol(argv[3]), nsh=atol(argv[4]), total=atol(argv[5]);
-  vc_argc=argc-6; vc_argv=argv+6; vc_verbose=getenv("VERIF_VERBOSE")!=NULL;
+  vc_argc=argc-6; vc_argv=argv+6; vc_verbose=getenv("VERIF_VERBOSE")?atoi(getenv("VERIF_VERBOSE"))+(atoi(getenv("VERIF_VERBOSE"))==0):0;
   const char *pf=getenv("VERIF_PROGRESS"); if(pf) vc_progress_fd=open(pf,O_CREAT|O_WRONLY|O_TRUNC,0644);
   const vc_mode_t *m=modes; while(m->name&&strcmp(m->name,vc_mode)) m++;
   if(!m->name){ fprintf(stderr,"unknown mode %s\n",vc_mode); return 3; }
@@ -155,7 +155,7 @@ static int vc_main(int argc,char **argv,const char *prop,const vc_mode_t *modes)
 static int vc_main(int argc,char **argv,const char *prop,const vc_mode_t *modes){
   if(argc<6){ fprintf(stderr,"usage: %s <mode> <seed> <start> <step> <count> [k=v...]\n",argv[0]); return 3; }
   vc_prop=prop; vc_mode=argv[1]; vc_seed=strtoull(argv[2],0,10); long start=atol(argv[3]), step=atol(argv[4]), count=atol(argv[5]);
-  vc_argc=argc-6; vc_argv=argv+6; vc_verbose=getenv("VERIF_VERBOSE")!=NULL;
+  vc_argc=argc-6; vc_argv=argv+6; vc_verbose=getenv("VERIF_VERBOSE")?atoi(getenv("VERIF_VERBOSE"))+(atoi(getenv("VERIF_VERBOSE"))==0):0;
   const char *pf=getenv("VERIF_PROGRESS"); if(pf) vc_progress_fd=open(pf,O_CREAT|O_WRONLY|O_TRUNC,0644);
   const vc_mode_t *m=modes; while(m->name&&strcmp(m->name,vc_mode)) m++;
   if(!m->name){ fprintf(stderr,"unknown mode %s\n",vc_mode); return 3; }
